@@ -300,6 +300,7 @@ func TestDriverTwin(t *testing.T) {
 			if rep.idx%3 == 1 && (b%37 == 17 || rr.Chance(5) || (afterDeploy && rr.Bool())) {
 				// every restart with other store settings of app.toml (inter-block cache, IAVL cache size, fast node)
 				rep.restarts++
+				rep.restartedAt = rep.c.Height
 				if rep.cfg.AppToml > 0 {
 					// the whole start-up path, every restart with the next app.toml variant
 					w.restartNode(rep)
@@ -454,7 +455,7 @@ func TestDriverTwin(t *testing.T) {
 					}
 				}
 			}
-			res, err := rep.runOn(w, raws, r.Fork(uint64(1000+i)))
+			res, err := rep.runOn(w, raws, r.Fork(uint64(1000+rep.idx)))
 			if err != nil {
 				halted = append(halted, fmt.Sprintf("%s: %.300s", w.describeCfgs()[i], err.Error()))
 				continue
@@ -509,8 +510,13 @@ func TestDriverTwin(t *testing.T) {
 		for i := 1; i < len(projs); i++ {
 			if class, tx, detail := firstDiff(projs[0], projs[i]); class != "" {
 				agree = false
-				side.Hit(fmt.Sprintf("C01/twin/%s/%s", class, kindOf(tx)),
-					fmt.Sprintf("block %d (height %d): replica 0 and replica %d (%s) differ in %s of transaction %d (%s): %s", b, height, i, w.describeCfgs()[i], class, tx, kindOf(tx), detail), desc)
+				sig := fmt.Sprintf("C01/twin/%s/%s", class, kindOf(tx))
+				if rep := w.reps[i]; class == "app_hash" && rep.restarts > 0 && rep.restartedAt == height {
+					// everything else of the block's output agrees and this is the first block of an instance re-created on its database
+					sig = "C01/twin/app_hash/after-restart"
+				}
+				side.Hit(sig,
+					fmt.Sprintf("block %d (height %d): replica 0 and replica %d (%s) differ in %s of transaction %d (%s): %s", b, height, w.reps[i].idx, w.describeCfgs()[i], class, tx, kindOf(tx), detail), desc)
 				break
 			}
 		}
